@@ -160,6 +160,16 @@ type PropItem struct {
 	Label string // optional behaviour label
 }
 
+// TypeInv: an object invariant of a named type. Every method of the type (pointer receiver) that has no contract of
+// its own is verified against "requires inv / ensures inv" - including methods added after the contract was written.
+type TypeInv struct {
+	Type   string
+	Binder string
+	E      CExpr
+	Src    string
+	Line   int
+}
+
 type Example struct {
 	Name string
 	E    CExpr
@@ -184,6 +194,7 @@ type ContractFile struct {
 	Props    []*PropertyDecl
 	Examples []*Example
 	Layouts  []*Layout
+	TypeInvs []*TypeInv
 	GhostVars []*GhostVar
 }
 
@@ -389,7 +400,7 @@ func (p *parser) ident() string {
 
 var declKeywords = map[string]bool{
 	"pure": true, "lemma": true, "auto": true, "func": true, "property": true,
-	"trusted": true, "example": true, "axiom": true, "uninterpreted": true, "ghost": true, "layout": true,
+	"trusted": true, "example": true, "axiom": true, "uninterpreted": true, "ghost": true, "layout": true, "typeinv": true,
 }
 var clauseKeywords = map[string]bool{
 	"requires": true, "ensures": true, "decreases": true, "modifies": true, "loop": true,
@@ -593,9 +604,15 @@ func (p *parser) decl(cf *ContractFile) {
 				it.Kind = "example"
 			} else if p.acceptId("layout") {
 				it.Kind = "layout"
+			} else if p.acceptId("typeinv") {
+				it.Kind = "typeinv"
+			} else if p.acceptId("nosharedwrites") {
+				it.Kind = "nosharedwrites"
 			}
 			if it.Kind == "func" {
 				it.Name = p.funcName()
+			} else if it.Kind == "nosharedwrites" {
+				it.Name = "package"
 			} else {
 				it.Name = p.ident()
 			}
@@ -624,6 +641,15 @@ func (p *parser) decl(cf *ContractFile) {
 			l.Fields = append(l.Fields, lf)
 		}
 		cf.Layouts = append(cf.Layouts, l)
+	case "typeinv":
+		p.next()
+		ti := &TypeInv{Type: p.ident(), Line: t.line}
+		ti.Binder = p.ident()
+		p.expect(":")
+		st := p.p
+		ti.E = p.expr()
+		ti.Src = p.srcOf(st, p.p)
+		cf.TypeInvs = append(cf.TypeInvs, ti)
 	case "example":
 		p.next()
 		ex := &Example{Name: p.ident()}
